@@ -17,6 +17,21 @@
 //	          at any position of any history, the same with and without Immutable, with the
 //	          default and the custom context, and equal to hand-written anchors.
 //
+// Request shapes (shapes.go). The general alphabet may stand at every position of a history. On
+// top of it come ~110 request-SHAPE letters, one per branch that the REQUEST selects under an
+// accessor or in fasthttp's parser below it (Content-Encoding classes with really encoded bodies,
+// chunked / Expect / large / empty bodies, media types and form encodings, absent / empty /
+// duplicated / padded / re-cased headers, cookie forms, Host and proxy-header forms, query forms,
+// path forms, route shapes, methods, Range forms ...). A shape letter is the FIRST request of a
+// shape history; it is followed by its twin (same shape, same length in every component, other
+// content: overwrite in place) and by general letters (shorter and longer content: partial
+// overwrite, buffer growth). Next to the plain and the rich option set there are single-flag
+// option sets: ONE Config field next to Immutable that selects another code path
+// (StreamRequestBody, DisablePreParseMultipartForm, ReduceMemoryUsage, DisableHeaderNormalizing,
+// TrustProxy with an untrusted peer, UnescapePath, EnableIPValidation, no ProxyHeader, strict +
+// case-sensitive routing). A signature carries shape= / opts= only when the accessor is not
+// reported for the general alphabet under plain/rich: the defect then needs that code path.
+//
 // Histories run in worker processes with GOMAXPROCS=1, GC off inside a history and two forced
 // GCs between histories: every history starts from empty pools and recycling is deterministic.
 package main
@@ -50,8 +65,14 @@ import (
 type config struct {
 	Immutable bool
 	Ctx       string // default | custom
-	Opts      string // plain | rich
+	Opts      string // plain | rich | one of flagOpts
 }
+
+// flagOpts: option sets that switch ONE configuration field next to Immutable which selects
+// another code path under an accessor (explored with the default context, both Immutable settings).
+var flagOpts = []string{"stream-body", "lazy-multipart", "reduce-memory", "raw-header-names", "untrusted-peer", "unescape-path", "ip-validation", "no-proxy-header", "strict-case-routing"}
+
+func (c config) flag() bool { return c.Opts != "plain" && c.Opts != "rich" }
 
 func (c config) String() string {
 	return fmt.Sprintf("immutable=%v ctx=%s opts=%s", c.Immutable, c.Ctx, c.Opts)
@@ -65,6 +86,11 @@ func init() {
 			for _, imm := range []bool{true, false} {
 				configs = append(configs, config{imm, ctx, opts})
 			}
+		}
+	}
+	for _, opts := range flagOpts {
+		for _, imm := range []bool{true, false} {
+			configs = append(configs, config{imm, "default", opts})
 		}
 	}
 }
@@ -92,10 +118,15 @@ type session struct {
 	checked  int64
 }
 
-func newSession(ci int, l *core.Local) *session {
+// newSession builds the app of a configuration. full: serve every letter alone right away (the
+// baseline oracle compares them all); otherwise a letter's solo values are taken when a history
+// first needs them (need).
+func newSession(ci int, l *core.Local, full bool) *session {
 	s := &session{cfg: configs[ci], ci: ci, l: l}
 	fc := fiber.Config{Immutable: s.cfg.Immutable, ProxyHeader: fiber.HeaderXForwardedFor}
-	if s.cfg.Opts == "rich" {
+	switch s.cfg.Opts {
+	case "plain":
+	case "rich":
 		fc.EnableIPValidation = true
 		fc.UnescapePath = true
 		fc.EnableSplittingOnParsers = true
@@ -103,6 +134,27 @@ func newSession(ci int, l *core.Local) *session {
 		fc.CaseSensitive = true
 		fc.TrustProxy = true
 		fc.TrustProxyConfig = fiber.TrustProxyConfig{Loopback: true}
+	case "stream-body": // Request.Body() drains a body stream instead of finding the body read
+		fc.StreamRequestBody = true
+	case "lazy-multipart": // the multipart body stays raw; the form is parsed when an accessor asks for it
+		fc.DisablePreParseMultipartForm = true
+	case "reduce-memory": // fasthttp hands its read/write buffers back between requests
+		fc.ReduceMemoryUsage = true
+	case "raw-header-names": // header names are kept as sent
+		fc.DisableHeaderNormalizing = true
+	case "untrusted-peer": // TrustProxy on, the peer is not trusted: IP/Host/Scheme come from the connection and the Host header
+		fc.TrustProxy = true
+	case "unescape-path": // c.path is decoded in place, routing stays case-insensitive
+		fc.UnescapePath = true
+	case "ip-validation": // IP()/IPs() scan the proxy header for valid addresses
+		fc.EnableIPValidation = true
+	case "no-proxy-header": // IP() is the peer address
+		fc.ProxyHeader = ""
+	case "strict-case-routing": // the detection path is neither lower-cased nor trimmed
+		fc.StrictRouting = true
+		fc.CaseSensitive = true
+	default:
+		core.Fatal("unknown option set %q", s.cfg.Opts)
 	}
 	app := fiber.New(fc)
 	if s.cfg.Ctx == "custom" {
@@ -112,12 +164,22 @@ func newSession(ci int, l *core.Local) *session {
 	}
 	app.Use(func(c fiber.Ctx) error { return c.Next() })
 	app.Get("/named/:id/:name?", func(c fiber.Ctx) error { return nil }).Name("named")
-	for _, p := range []string{"/u/:id/:name?", "/w/*", "/p/+", "/m/:a/*", "/s"} {
+	for _, p := range append([]string{"/u/:id/:name?", "/w/*", "/p/+", "/m/:a/*", "/s"}, shapeRoutes...) {
 		app.All(p, s.handle)
 	}
 	_ = app.Handler() // startup processing
 	s.app, s.srv = app, app.Server()
-	s.baseline()
+	s.solo = make([][]byte, len(alphabet))
+	if full {
+		var letters []int
+		for li := range alphabet {
+			if s.cfg.flag() && li >= nGeneral+nShapes {
+				continue // single-flag option sets: the twins (same shape, other content) add nothing to the solo comparisons
+			}
+			letters = append(letters, li)
+		}
+		s.need(letters)
+	}
 	return s
 }
 
@@ -146,6 +208,83 @@ func (s *session) violate(sig string, build func() (what string, cs map[string]a
 	}
 	what, cs, o, e := build()
 	s.l.Violate(sig, what, cs, o, e)
+}
+
+// qual qualifies a signature with what the general exploration does not have: a single-flag option
+// set and/or the shape class of the request whose values are concerned. Qualified signatures are
+// folded into the unqualified one at the end of the run when that was reported too (foldQualified):
+// what remains qualified is a defect that ONLY shows on that code path.
+func (s *session) qual(li int) string { return qualOf(s.cfg, li) }
+
+func qualOf(cf config, li int) string {
+	q := ""
+	if cf.flag() {
+		q += " opts=" + cf.Opts
+	}
+	if sh := alphabet[li].Shape; sh != "" {
+		q += " shape=" + strings.NewReplacer(",", "+", " ", ",", "=", ":").Replace(sh)
+	}
+	return q
+}
+
+// foldCandidates: the less qualified signatures a qualified one is folded into, most general first.
+func foldCandidates(sig string) []string {
+	base, shape, opts := sig, "", ""
+	if i := strings.Index(base, " shape="); i >= 0 {
+		base, shape = base[:i], base[i:]
+	}
+	if i := strings.Index(base, " opts="); i >= 0 {
+		base, opts = base[:i], base[i:]
+	}
+	var out []string
+	if shape != "" || opts != "" {
+		out = append(out, base)
+	}
+	if shape != "" && opts != "" {
+		out = append(out, base+shape, base+opts)
+	}
+	return out
+}
+
+// stem drops the after= token: which later request overwrote the value is a detail of the same defect.
+func stem(sig string) string {
+	i := strings.Index(sig, " after=")
+	if i < 0 {
+		return sig
+	}
+	rest := sig[i+1:]
+	if j := strings.IndexByte(rest, ' '); j >= 0 {
+		return sig[:i] + rest[j:]
+	}
+	return sig[:i]
+}
+
+// foldQualified: a qualified signature is folded into the first less qualified one that was
+// reported itself (for any after= class).
+func foldQualified(vs map[string]*core.Violation) {
+	stems := map[string]bool{}
+	sigs := make([]string, 0, len(vs))
+	for sig := range vs {
+		stems[stem(sig)] = true
+		sigs = append(sigs, sig)
+	}
+	sort.Strings(sigs)
+	for _, sig := range sigs {
+		for _, c := range foldCandidates(sig) {
+			if !stems[stem(c)] {
+				continue
+			}
+			v := vs[sig]
+			delete(vs, sig)
+			if o, ok := vs[c]; ok {
+				o.Count += v.Count
+			} else {
+				v.Signature = c
+				vs[c] = v
+			}
+			break
+		}
+	}
 }
 
 func lenRel(a, b int) string {
@@ -183,7 +322,7 @@ func (s *session) checkRetained(t int, phase string) {
 				after = lenRel(alphabet[s.hist[t]].comp[comp], alphabet[s.hist[e.step]].comp[comp]) + "-" + comp + "-" + conn
 			}
 		}
-		s.violate("immutable-clobbered accessor="+sigAcc(e.Acc)+" after="+after, func() (string, map[string]any, any, any) {
+		s.violate("immutable-clobbered accessor="+sigAcc(e.Acc)+" after="+after+s.qual(s.hist[e.step]), func() (string, map[string]any, any, any) {
 			cs := s.caseOf()
 			if t >= 0 {
 				cs["clobbered_by_request"] = fmt.Sprintf("#%d %s", t, alphabet[s.hist[t]].Name)
@@ -219,7 +358,7 @@ func (s *session) checkCur(cur []*entry, t int, group string) {
 		}
 		e.dead = true
 		s.unstable++
-		s.violate(fmt.Sprintf("handler-unstable accessor=%s by=%s immutable=%v", sigAcc(e.Acc), group, s.cfg.Immutable), func() (string, map[string]any, any, any) {
+		s.violate(fmt.Sprintf("handler-unstable accessor=%s by=%s immutable=%v", sigAcc(e.Acc), group, s.cfg.Immutable)+s.qual(s.hist[t]), func() (string, map[string]any, any, any) {
 			cs := s.caseOf()
 			cs["request"] = fmt.Sprintf("#%d %s", t, alphabet[s.hist[t]].Name)
 			cs["accessor"] = e.Acc
@@ -336,7 +475,25 @@ func (s *session) account() {
 		}
 	}
 	conns := 1 + b2i(s.split < len(s.hist))
-	l.Outcome(fmt.Sprintf("immutable=%v ctx=%s requests=%d conns=%d clobbered=%s unstable=%v", s.cfg.Immutable, s.cfg.Ctx, len(s.hist), conns, clobberBucket(s.clobbers), s.unstable > 0))
+	first := "general"
+	if f := alphabet[s.hist[0]]; f.Shape != "" {
+		first = "shape"
+		l.Add("shape_histories", 1)
+		l.Add("shape/"+f.Shape, 1)
+		for t := 1; t < len(s.hist); t++ {
+			if s.hist[t] == f.Twin {
+				l.Add("shape_overwritten_by_twin", 1)
+			} else {
+				l.Add("shape_overwritten_by_general_letter", 1)
+			}
+		}
+	}
+	opts := s.cfg.Opts
+	if s.cfg.flag() {
+		opts = "single-flag"
+		l.Add("single_flag_config_histories", 1)
+	}
+	l.Outcome(fmt.Sprintf("immutable=%v ctx=%s opts=%s first=%s requests=%d conns=%d clobbered=%s unstable=%v", s.cfg.Immutable, s.cfg.Ctx, opts, first, len(s.hist), conns, clobberBucket(s.clobbers), s.unstable > 0))
 	// differential: position independence
 	for t, d := range s.digests {
 		lt := alphabet[s.hist[t]]
@@ -430,11 +587,18 @@ func diffIDs(a, b map[string]string) []string {
 	return out
 }
 
-// baseline serves every letter alone and keeps what the accessors returned.
-func (s *session) baseline() {
-	s.solo = make([][]byte, len(alphabet))
-	for li := range alphabet {
+// need serves the given letters alone on fresh pools, unless done before, and
+// keeps what the accessors returned: the reference of the position-independence oracle.
+func (s *session) need(letters []int) {
+	for _, li := range letters {
+		if s.solo[li] != nil {
+			continue
+		}
+		t0 := time.Now()
 		s.run([]int{li}, 1, -1)
+		if os.Getenv("C06_TIMING") == "solo" {
+			fmt.Fprintf(os.Stderr, "solo %-32s %8.2fms values=%d\n", alphabet[li].Name, float64(time.Since(t0).Microseconds())/1000, s.ncapt)
+		}
 		s.solo[li] = s.digests[0]
 		s.digests = nil
 		s.l.Add("solo_runs", 1)
@@ -445,25 +609,41 @@ func (s *session) baseline() {
 	}
 }
 
-// baselineOracle: anchors and cross-configuration equality of the solo values (run once).
-func baselineOracle(l *core.Local) {
-	solos := make([][]map[string]string, len(configs))
+// baselineOracle: anchors and cross-configuration equality of the solo values. The option sets are
+// dealt out to the workers (only configurations with the same option set are compared); worker < 0
+// does them all.
+func baselineOracle(l *core.Local, worker, nw int) {
+	solos := make([][][]byte, len(configs)) // digests: nothing for the GCs of the solo runs to scan
 	scratch := core.NewLocal() // the baseline counters of these throw-away sessions are not evidence
-	for ci := range configs {
-		s := newSession(ci, scratch)
-		for _, d := range s.solo {
-			solos[ci] = append(solos[ci], decodeDigest(d))
+	group := map[string]int{}
+	for _, cf := range configs {
+		if _, ok := group[cf.Opts]; !ok {
+			group[cf.Opts] = len(group)
 		}
+	}
+	mine := func(cf config) bool { return worker < 0 || group[cf.Opts]%nw == worker }
+	for ci := range configs {
+		if !mine(configs[ci]) {
+			continue
+		}
+		solos[ci] = newSession(ci, scratch, true).solo
 	}
 	for sig, v := range scratch.P.Violations { // oracle 2 applies to the solo runs too
 		l.P.Violations[sig] = v
 	}
 	for ci, cf := range configs {
+		if !mine(cf) {
+			continue
+		}
 		if cf.Opts == "plain" {
 			for li, lt := range alphabet {
+				if len(lt.Want) == 0 {
+					continue
+				}
+				solo := decodeDigest(solos[ci][li])
 				for _, id := range sortedKeys(lt.Want) {
 					l.Add("anchors_checked", 1)
-					if got, ok := solos[ci][li][id]; !ok || got != lt.Want[id] {
+					if got := solo[id]; got != lt.Want[id] { // an empty value is not recorded
 						acc := id[:strings.IndexByte(id, '|')]
 						l.Violate(fmt.Sprintf("value-incorrect accessor=%s letter=%s", acc, lt.Name), "an accessor does not return the value the request carries",
 							map[string]any{"config": cf.String(), "request": string(lt.raw), "value": id, "ord": -1}, clip(got), lt.Want[id])
@@ -483,17 +663,24 @@ func baselineOracle(l *core.Local) {
 				continue
 			}
 			for li, lt := range alphabet {
-				for _, id := range diffIDs(solos[ci][li], solos[oi][li]) {
-					_, in1 := solos[ci][li][id]
-					_, in2 := solos[oi][li][id]
+				if solos[ci][li] == nil || solos[oi][li] == nil {
+					continue
+				}
+				l.Add("cross_config_comparisons", 1)
+				if bytes.Equal(solos[ci][li], solos[oi][li]) {
+					continue
+				}
+				m1, m2 := decodeDigest(solos[ci][li]), decodeDigest(solos[oi][li])
+				for _, id := range diffIDs(m1, m2) {
+					_, in1 := m1[id]
+					_, in2 := m2[id]
 					if !in1 || !in2 {
 						continue // the Req() twins are not exercised with the custom context
 					}
 					acc := id[:strings.IndexByte(id, '|')]
-					l.Violate(fmt.Sprintf("value-differs-across-config accessor=%s between=%s", sigAcc(acc), what), "the same request yields different values under two configurations that must not affect it",
-						map[string]any{"configs": []string{cf.String(), of.String()}, "letter": lt.Name, "value": id, "ord": -1}, clip(solos[oi][li][id]), clip(solos[ci][li][id]))
+					l.Violate(fmt.Sprintf("value-differs-across-config accessor=%s between=%s", sigAcc(acc), what)+qualOf(cf, li), "the same request yields different values under two configurations that must not affect it",
+						map[string]any{"configs": []string{cf.String(), of.String()}, "letter": lt.Name, "value": id, "ord": -1}, clip(m2[id]), clip(m1[id]))
 				}
-				l.Add("cross_config_comparisons", 1)
 			}
 		}
 	}
@@ -509,73 +696,153 @@ type item struct {
 	split int
 }
 
-// forEachHistory enumerates, in a fixed order, every history of 1..maxFurther further requests:
-// config x first letter x sequence of further letters x number of requests on the first connection.
-func forEachHistory(bound func(ci int) int, want func(ci int, pos int64) bool, fn func(idx int64, it item)) int64 {
-	var idx int64
-	n := len(alphabet)
-	for ci := range configs {
-		var pos int64
-		for k := 1; k <= bound(ci); k++ {
-			total := 1
-			for i := 0; i <= k; i++ {
-				total *= n
+// plan: what is enumerated for one configuration.
+//
+//	general part  every history of 1..genK further requests over the general alphabet (any letter
+//	              at any position), every number of requests on the first connection;
+//	shape part    first request = a request-shape letter, 1..shapeK further requests out of its
+//	              follower set, every placement. lvl[k-1] is the follower set of the histories with
+//	              k further requests: 0 = {twin}, 1 = {twin, pickedFollowers}, 2 = {twin, every
+//	              general letter}.
+type plan struct {
+	genK, shapeK int
+	lvl          [3]int
+}
+
+// pickedFollowers: the general letters that are longer than the shape letters in every component,
+// without and with a body (the requests that make the buffers grow; the twin overwrites in place).
+var pickedFollowers = []string{"get-long-wildcard", "post-multipart"}
+
+func followers(si, lvl int) []int {
+	w := []int{alphabet[si].Twin}
+	switch lvl {
+	case 1:
+		for _, n := range pickedFollowers {
+			for i := 0; i < nGeneral; i++ {
+				if alphabet[i].Name == n {
+					w = append(w, i)
+				}
 			}
-			for code := 0; code < total; code++ {
-				var hist []int
-				for split := 1; split <= k+1; split++ {
-					if want(ci, pos) {
-						if hist == nil {
-							hist = make([]int, k+1)
-							c := code
-							for i := k; i >= 0; i-- {
-								hist[i] = c % n
-								c /= n
-							}
-						}
-						fn(idx, item{ci, pos, hist, split})
+		}
+	case 2:
+		for i := 0; i < nGeneral; i++ {
+			w = append(w, i)
+		}
+	}
+	return w
+}
+
+// planOf: bounds per tier, configuration and pass.
+//
+//	quick     plain option set: general 2 further requests; shapes 1 further request out of
+//	          {twin, all general letters} and 2 out of {twin, picked}.
+//	          rich option set (UnescapePath, EnableSplittingOnParsers, EnableIPValidation, strict +
+//	          case-sensitive routing, TrustProxy): general 1; shapes 1 out of {twin, picked}.
+//	          single-flag option sets: general 1; shapes 1 out of {twin, picked}.
+//	thorough  plain and rich: general 3; shapes 2 out of {twin, all general}.
+//	          single-flag option sets: general 2; shapes 2 out of {twin, picked}.
+//
+// The SendFile pass (plain and rich only) is one general request shallower (never below 1) and
+// follows a shape letter by its twin only: fasthttp's file handler initialises package mime (12k
+// live objects from /etc/mime.types), which makes the two GCs per history four times dearer, and
+// SendFile only matters to oracle 2, which looks at one handler at a time.
+func planOf(r *core.Run, sendfile bool) func(ci int) plan {
+	return func(ci int) plan {
+		cf := configs[ci]
+		var p plan
+		switch {
+		case cf.flag() && sendfile:
+			return plan{}
+		case cf.flag():
+			p = plan{genK: 2, shapeK: 2, lvl: [3]int{1, 1}}
+			if r.Quick() {
+				p = plan{genK: 1, shapeK: 1, lvl: [3]int{1}}
+			}
+		default:
+			p = plan{genK: 3, shapeK: 2, lvl: [3]int{2, 2}}
+			if r.Quick() {
+				p = plan{genK: 2, shapeK: 2, lvl: [3]int{2, 1}}
+				if cf.Opts == "rich" {
+					p = plan{genK: 1, shapeK: 1, lvl: [3]int{1}}
+				}
+			}
+		}
+		if sendfile {
+			if p.genK > 1 {
+				p.genK--
+			}
+			p.shapeK, p.lvl = 1, [3]int{0}
+		}
+		return p
+	}
+}
+
+func ipow(n, k int) int {
+	t := 1
+	for i := 0; i < k; i++ {
+		t *= n
+	}
+	return t
+}
+
+// forEachHistory enumerates every history in a fixed order: configuration x (general part: number
+// of further requests x letters x placement; shape part: number of further requests x shape letter
+// x followers x placement). want is asked with the weight (a cost estimate: requests + the
+// constant per-history work) of all histories before this one; the totals are returned.
+func forEachHistory(pl func(ci int) plan, want func(ci int, before int64) bool, fn func(idx int64, it item)) (count, weight int64) {
+	var idx, cum int64
+	for ci := range configs {
+		p := pl(ci)
+		var pos int64
+		emit := func(k int, mk func() []int) {
+			var hist []int
+			for split := 1; split <= k+1; split++ {
+				if want(ci, cum) {
+					if hist == nil {
+						hist = mk()
 					}
-					idx++
-					pos++
+					fn(idx, item{ci, pos, hist, split})
+				}
+				idx++
+				pos++
+				cum += int64(k + 3)
+			}
+		}
+		n := nGeneral
+		for k := 1; k <= p.genK; k++ {
+			total := ipow(n, k+1)
+			for code := 0; code < total; code++ {
+				emit(k, func() []int {
+					hist := make([]int, k+1)
+					c := code
+					for i := k; i >= 0; i-- {
+						hist[i] = c % n
+						c /= n
+					}
+					return hist
+				})
+			}
+		}
+		for k := 1; k <= p.shapeK; k++ {
+			for si := nGeneral; si < nGeneral+nShapes; si++ {
+				w := followers(si, p.lvl[k-1])
+				total := ipow(len(w), k)
+				for code := 0; code < total; code++ {
+					emit(k, func() []int {
+						hist := make([]int, k+1)
+						hist[0] = si
+						c := code
+						for i := k; i >= 1; i-- {
+							hist[i] = w[c%len(w)]
+							c /= len(w)
+						}
+						return hist
+					})
 				}
 			}
 		}
 	}
-	return idx
-}
-
-// owner: a worker serves one configuration at a time (one app and one baseline on its heap).
-func owner(ci int, pos int64, nw int) int {
-	m := nw / len(configs)
-	if m < 1 {
-		m = 1
-	}
-	return (ci*m + int(pos%int64(m))) % nw
-}
-
-// maxFurther: bound on the further requests of a history, per configuration.
-//
-//	thorough: 3 everywhere; quick: 2 with the plain option set, 1 with the rich one (UnescapePath,
-//	EnableSplittingOnParsers, EnableIPValidation, strict + case-sensitive routing, TrustProxy).
-//
-// The SendFile pass is one request shallower (never below 1): fasthttp's file handler
-// initialises package mime (12k live objects from /etc/mime.types), which makes the two GCs
-// per history four times dearer, and SendFile only matters to oracle 2, which looks at one
-// handler at a time.
-func maxFurther(r *core.Run, sendfile bool) func(ci int) int {
-	return func(ci int) int {
-		k := 3
-		if r.Quick() {
-			k = 2
-			if configs[ci].Opts == "rich" {
-				k = 1
-			}
-		}
-		if sendfile && k > 1 {
-			k--
-		}
-		return k
-	}
+	return idx, cum
 }
 
 func runWorker(r *core.Run) {
@@ -588,14 +855,18 @@ func runWorker(r *core.Run) {
 		core.Fatal("worker must run with GOMAXPROCS=1")
 	}
 	l := core.NewLocal()
-	if r.Worker == 0 && !*flagSendFile {
-		baselineOracle(l)
+	if !*flagSendFile {
+		baselineOracle(l, r.Worker, r.NWorkers)
 	}
 	var s *session
 	capped := false
 	mine := 0
-	nw := r.NWorkers
-	forEachHistory(maxFurther(r, *flagSendFile), func(ci int, pos int64) bool { return !capped && owner(ci, pos, nw) == r.Worker }, func(idx int64, it item) {
+	// every worker takes a contiguous stretch of the enumeration of (about) the same weight: it
+	// builds an app and a solo baseline only for the few configurations its stretch touches
+	pl := planOf(r, *flagSendFile)
+	_, totalWeight := forEachHistory(pl, func(int, int64) bool { return false }, nil)
+	lo, hi := totalWeight*int64(r.Worker)/int64(r.NWorkers), totalWeight*int64(r.Worker+1)/int64(r.NWorkers)
+	forEachHistory(pl, func(_ int, before int64) bool { return !capped && before >= lo && before < hi }, func(idx int64, it item) {
 		mine++
 		if mine%32 == 0 && r.Expired() {
 			capped = true
@@ -604,8 +875,10 @@ func runWorker(r *core.Run) {
 		}
 		if s == nil || s.ci != it.ci {
 			s = nil
-			s = newSession(it.ci, l)
+			s = newSession(it.ci, l, false)
+			l.Add("sessions", 1)
 		}
+		s.need(it.hist)
 		s.run(it.hist, it.split, idx)
 		s.account()
 		if it.pos%4099 == 0 {
@@ -742,13 +1015,17 @@ func runReplay(r *core.Run) {
 	debug.SetGCPercent(-1)
 	*flagSendFile = v.Case.SendFile
 	l := core.NewLocal()
-	s := newSession(v.Case.ConfigIndex, l)
+	s := newSession(v.Case.ConfigIndex, l, false)
+	s.need(v.Case.Letters)
 	s.run(v.Case.Letters, v.Case.Split, 0)
 	s.account()
 	hit := false
 	sigs := printViolations(l)
 	for _, sig := range sigs {
 		hit = hit || sig == v.Signature
+		for _, c := range foldCandidates(sig) {
+			hit = hit || c == v.Signature
+		}
 	}
 	fmt.Printf("replay of %q: reproduced=%v (%d signatures in this history)\n", v.Signature, hit, len(sigs))
 	if hit {
@@ -761,13 +1038,33 @@ var flagSendFile = flag.Bool("sendfile", false, "internal: worker of the SendFil
 
 var flagBaseline = flag.Bool("baseline", false, "development aid: run only the solo baseline oracle and print what it finds")
 
+var flagDump = flag.String("dump", "", "development aid: print what the accessors return for the named letter served alone (config index in -dumpcfg)")
+var flagDumpCfg = flag.Int("dumpcfg", 0, "development aid: configuration index for -dump")
+
 func main() {
 	r := core.Start("C06")
+	if *flagDump != "" {
+		runtime.GOMAXPROCS(1)
+		debug.SetGCPercent(-1)
+		s := newSession(*flagDumpCfg, core.NewLocal(), true)
+		for li, lt := range alphabet {
+			if lt.Name == *flagDump {
+				fmt.Printf("%s\n%q\n", s.cfg, lt.raw)
+				m := decodeDigest(s.solo[li])
+				for _, id := range sortedKeys(m) {
+					if m[id] != "" && m[id] != "[]" && m[id] != "{}" {
+						fmt.Printf("  %-40s %s\n", id, clip(m[id]))
+					}
+				}
+			}
+		}
+		os.Exit(0)
+	}
 	if *flagBaseline {
 		runtime.GOMAXPROCS(1)
 		debug.SetGCPercent(-1)
 		l := core.NewLocal()
-		baselineOracle(l)
+		baselineOracle(l, -1, 1)
 		printViolations(l)
 		os.Exit(0)
 	}
@@ -780,7 +1077,7 @@ func main() {
 	}
 	if r.Deadline.IsZero() {
 		if r.Quick() {
-			r.Deadline = r.Start.Add(55 * time.Second)
+			r.Deadline = r.Start.Add(70 * time.Second)
 		} else {
 			r.Deadline = r.Start.Add(14 * time.Minute)
 		}
@@ -792,8 +1089,10 @@ func main() {
 	spawn(r, nw, "-sendfile") // the small pass first: the budget is then spent on the deep one
 	spawn(r, nw)
 	c := r.P.Counters
-	total := forEachHistory(maxFurther(r, false), func(int, int64) bool { return false }, nil) +
-		forEachHistory(maxFurther(r, true), func(int, int64) bool { return false }, nil)
+	foldQualified(r.P.Violations)
+	nMain, _ := forEachHistory(planOf(r, false), func(int, int64) bool { return false }, nil)
+	nSend, _ := forEachHistory(planOf(r, true), func(int, int64) bool { return false }, nil)
+	total := nMain + nSend
 	if len(r.P.Caps) == 0 {
 		if c["traces"] != total {
 			core.Fatal("histories executed %d != enumerated %d", c["traces"], total)
@@ -806,13 +1105,55 @@ func main() {
 			}
 		}
 	}
-	names := make([]string, len(alphabet))
+	var names, shapeNames []string
+	classes := map[string]bool{}
 	for i, l := range alphabet {
-		names[i] = l.Name
+		switch {
+		case i < nGeneral:
+			names = append(names, l.Name)
+		case i < nGeneral+nShapes:
+			shapeNames = append(shapeNames, l.Name+" ["+l.Shape+"]")
+			classes[l.Shape] = true
+		}
 	}
+	// measured: every shape class was the first request of at least one executed history
+	exercised := 0
+	for cl := range classes {
+		if c["shape/"+cl] > 0 {
+			exercised++
+		} else if len(r.P.Caps) == 0 {
+			core.Fatal("vacuous exploration: no history starts with a request of shape class %q", cl)
+		}
+	}
+	if len(r.P.Caps) == 0 {
+		for _, k := range []string{"shape_overwritten_by_twin", "shape_overwritten_by_general_letter", "single_flag_config_histories"} {
+			if c[k] == 0 {
+				core.Fatal("vacuous exploration: mechanism counter %s is 0", k)
+			}
+		}
+	}
+	for k := range c { // the per-class counters are summarised, not listed
+		if strings.HasPrefix(k, "shape/") {
+			delete(c, k)
+		}
+	}
+	c["shape_classes"] = int64(len(classes))
+	c["shape_classes_exercised"] = int64(exercised)
 	cfgs := make([]string, len(configs))
+	plans := map[string]any{}
 	for i, cf := range configs {
 		cfgs[i] = cf.String()
+		for _, sf := range []bool{false, true} {
+			p := planOf(r, sf)(i)
+			key := cf.Opts
+			if cf.flag() {
+				key = "single-flag option sets"
+			}
+			if sf {
+				key += " (sendfile pass)"
+			}
+			plans[key] = map[string]any{"general_max_further_requests": p.genK, "shape_max_further_requests": p.shapeK, "shape_follower_set_per_depth": p.lvl[:p.shapeK]}
+		}
 	}
 	r.Finish(core.Evidence{
 		Level:      "model_checking",
@@ -821,10 +1162,10 @@ func main() {
 			"states":                        c["states"],
 			"transitions":                   c["transitions"] + c["connection_close_transitions"],
 			"traces_validated_against_impl": c["traces"],
-			"state_definition":              "state = (configuration, requests served so far, which of them went over the first connection); one transition per request served and per connection closed; every state is the end of exactly one enumerated history, so states are counted once, at the end of the history that reaches them (plus the one-request states of the solo baseline)",
-			"bounds": map[string]any{"alphabet": names, "max_further_requests": map[string]int{"plain option set": maxFurther(r, false)(0), "rich option set": maxFurther(r, false)(4)},
-				"max_further_requests_sendfile_pass": map[string]int{"plain option set": maxFurther(r, true)(0), "rich option set": maxFurther(r, true)(4)}, "configurations": cfgs,
-				"placements": "first k requests pipelined on one keep-alive connection, the others on a second connection, every k", "workers": nw},
+			"state_definition":              "state = (configuration, requests served so far, which of them went over the first connection); one transition per request served and per connection closed; every state is the end of exactly one enumerated history, so states are counted once, at the end of the history that reaches them (plus the one-request states of the solo baselines)",
+			"bounds": map[string]any{"alphabet": names, "shape_letters": shapeNames, "plans": plans, "configurations": cfgs, "single_flag_option_sets": flagOpts,
+				"shape_follower_sets": map[string]any{"0": "twin (same shape, same lengths, other content)", "1": append([]string{"twin"}, pickedFollowers...), "2": "twin + every general letter"},
+				"placements":          "first k requests pipelined on one keep-alive connection, the others on a second connection, every k", "workers": nw},
 		},
 		Assumptions: []string{
 			"wire level through app.Server().ServeConn on an in-memory connection; one worker process per CPU with GOMAXPROCS=1, GC disabled inside a history and two forced GCs before it, so that every history starts from empty pools and sync.Pool recycling is deterministic",
@@ -833,6 +1174,8 @@ func main() {
 			"values reached through the raw fasthttp objects (c.Request(), c.RequestCtx()) are outside the statement and not retained",
 			"request-mutating calls (Path(override), Method(override), header writes on the request) are never made; SendFile is treated as a response helper",
 			"the order of the parts in Body()/BodyRaw() of a multipart request is left to fasthttp's re-serialisation (map order) and is not compared by the differential oracle",
+			"request-shape letters (one per branch a request selects under an accessor) stand only at the first position of a history; they are followed by their equal-length twin and by general letters",
+			"a signature carries shape=/opts= only when the same accessor is NOT reported for the general alphabet under the plain/rich option sets, i.e. when the defect needs that request shape / configuration flag",
 		},
 		MinOutcomes: 4,
 	})
